@@ -2,6 +2,7 @@ import DswModel.Model.Spiderweb
 import DswModel.Lemmas.Defs
 import DswModel.Lemmas.Trim
 import DswModel.Lemmas.TrimOne
+import DswModel.Lemmas.CoderDefs
 /-!
 # C03 — the coding graph is the largest closed sub-graph, or a ValueError
 
@@ -200,11 +201,40 @@ theorem C03_holds : C03_statement := by
   · subst h1; exact C03_t1 k m hm hk
   · exact C03_gfp k t m hm hk (by omega)
 
+/-- what the encoder needs from a generated graph (used by C04), for every threshold `t ≥ 1`:
+from every listed vertex, every vertex reachable along arcs is a row index, has an arc, and
+reaches a vertex with two or more arcs. -/
+theorem C03_goodFrom (k t : Nat) (m : Mask) (hm : m.size = 4 ^ k) (hk : 1 ≤ k) (ht : 1 ≤ t)
+    (vs : List Nat) (a : Acc) (h : connectCodingGraph k m t = .ok (vs, a)) :
+    ∀ v ∈ vs, a.GoodFrom (v : Int) := by
+  have key : ∃ s : Mask, IsLargestClosed k t m s ∧ a = inducedAccessor k s ∧ vs = s.indices ∧
+      vs = obtainVertices a ∧ vs ≠ [] := by
+    by_cases h1 : t = 1
+    · subst h1; exact (C03_t1 k m hm hk).1 vs a h
+    · exact (C03_gfp k t m hm hk (by omega)).1 vs a h
+  obtain ⟨s, ⟨hs1, _, hs3, _⟩, rfl, rfl, _, _⟩ := key
+  have hc : TrimOne.ClosedOne k s := by
+    by_cases h1 : t = 1
+    · subst h1
+      simp only [ClosedFor, if_true] at hs3
+      exact (C03_closed1_iff k s).1 hs3
+    · simp only [ClosedFor, h1, if_false] at hs3
+      exact TrimOne.trimClosed_closedOne (by omega) hs3
+  intro v hv
+  exact TrimOne.induced_goodFrom hs1 hc (Trim.Mask.mem_indices.1 hv)
+
 /-- trimming a latter map to the same threshold gives the same graph for t ≥ 2. -/
 theorem C03_latter_map (k t : Nat) (m : Mask) (hm : m.size = 4 ^ k) (hk : 1 ≤ k) (ht : 2 ≤ t)
     (vs : List Nat) (a : Acc) (h : connectCodingGraph k m t = .ok (vs, a)) :
     latterMapToAccessor (accessorToLatterMap (inducedAccessor k m)) k (some t) = .ok a := by
-  sorry
+  have ht1 : t ≠ 1 := by omega
+  rw [Trim.connectCodingGraph_eq k m t ht1] at h
+  cases hl : trimLoop k t (4 ^ k + 1) m with
+  | error e => rw [hl] at h; cases h
+  | ok s =>
+    rw [hl] at h
+    cases h
+    exact TrimOne.latterMap_trim hk (by omega) hm hl
 
 /-- the input mask is an immutable value in the model; the function is a pure function of it
 (the implementation side of "the input mask is not modified" is observed by the harness). -/
